@@ -60,7 +60,7 @@ func runsOf(p []int) string {
 	return strings.Join(parts, ",")
 }
 
-// gbSkipLoc: a digit run of 8 to 19 digits could make GetPositions allocate for minutes; such locations are not
+// gbSkipLoc: a digit run of 7 to 19 digits could make GetPositions allocate for minutes; such locations are not
 // handed to it (the Lean driver applies the same rule and prints S as well)
 func gbSkipLoc(s string) bool {
 	run := 0
@@ -69,7 +69,7 @@ func gbSkipLoc(s string) bool {
 			run++
 			continue
 		}
-		if run >= 8 && run <= 19 {
+		if run >= 7 && run <= 19 {
 			return true
 		}
 		run = 0
